@@ -182,6 +182,16 @@ func (e *Engine) generate() {
 		e.checkPost(o)
 		if !e.Exclusive {
 			e.checkFrame(o)
+			// every lock this activation took is released when it returns (a leaked lock wedges every later
+			// user of the object, and skips the invariant check that happens at Unlock)
+			if !o.panic && (e.Contract == nil || !e.Contract.Flag("returns-locked")) {
+				var held []string
+				for k := range o.s.Held {
+					held = append(held, k)
+				}
+				sort.Strings(held)
+				e.structural(e.FnKey+"/lock-released", "lockinv", fn.Pos(), "no lock taken by the function is still held when it returns", len(held) == 0, "returns while still holding "+strings.Join(held, ", "))
+			}
 		}
 	}
 }
